@@ -29,7 +29,7 @@ EXPLANATION = ('TAB rules over SIG_TO_KEYS (105 entries), KEY_TO_SIG, KEY_TO_PRO
 TRUSTED = ['music-theory oracle', 're._parser']
 NOT_DECIDED = ['pitch/onset/duration values over token sequences', 'repeat expansion order', 'key spellings outside the module\'s own table (e.g. K:G#) - outside the property\'s quantifier']
 ASSUMPTIONS = []
-FLOORS = {'TAB': 140, 'MODE': 8, 'TOKEN': 15, 'CONTAIN': 20, 'KEYERR': 3, 'ACC': 3}
+FLOORS = {'TAB': 140, 'MODE': 8, 'TOKEN': 15, 'CONTAIN': 20, 'KEYERR': 3, 'ACC': 3, 'STATE': 2}
 
 LETTER_PC = {'C': 0, 'D': 2, 'E': 4, 'F': 5, 'G': 7, 'A': 9, 'B': 11}
 LETTERS = 'CDEFGAB'
@@ -80,6 +80,9 @@ def run(ctx):
   contain(ctx, ci)
   keyerrors(ctx, ci, cc)
   accidentals(ctx, ci)
+  from sa import state
+  n = state.check_instance_state(ctx, ci, 'STATE/per-tune')
+  ctx.require(n >= 2, 'ABCTune: fewer in-place-mutated attributes than confirmed by hand (%d)' % n)
 
 
 def _ret_pos(i, n):
@@ -278,8 +281,9 @@ def tokens(ctx, ci, cc):
   ctx.require(tried is not None, '_parse_music_code: the list of token regexes was not found')
   dispatched = {}
   for n in ast.walk(fn):
-    if isinstance(n, ast.Compare) and norm_text(n.left) == 'match.re' and isinstance(n.ops[0], ast.Eq) and isinstance(n.comparators[0], ast.Attribute):
-      dispatched.setdefault(n.comparators[0].attr, n)
+    sides = U.eq_sides(n, lambda a: norm_text(a) == 'match.re', lambda b: isinstance(b, ast.Attribute))
+    if sides:
+      dispatched.setdefault(sides[1].attr, n)
   for name in tried:
     ok = name in dispatched and name in cc
     ctx.ob('TOKEN/dispatched', fi, dispatched.get(name, fn), ok, '%s is tried and dispatched' % name if ok else
@@ -293,7 +297,7 @@ def tokens(ctx, ci, cc):
   for pat, cls in UNSUPPORTED.items():
     br = None
     for s in U.walk_stmts(fn):
-      if isinstance(s, ast.If) and isinstance(s.test, ast.Compare) and norm_text(s.test.left) == 'match.re' and norm_text(s.test.comparators[0]).endswith('.' + pat):
+      if isinstance(s, ast.If) and U.eq_sides(s.test, lambda a: norm_text(a) == 'match.re', lambda b: norm_text(b).endswith('.' + pat)):
         br = s
     ok = br is not None and len(br.body) == 1 and isinstance(br.body[0], ast.Raise) and isinstance(br.body[0].exc, ast.Call) and dotted(br.body[0].exc.func) == cls
     ctx.ob('TOKEN/unsupported', fi, br or fn, ok, '%s raises %s' % (pat, cls) if ok else 'the %s construct does not raise %s' % (pat, cls), construct='%s -> %s' % (pat, cls))
@@ -448,6 +452,9 @@ def accidentals(ctx, ci):
 
 
 MUTANTS = [
+    Mutant('seed C04_b: bar accidentals become a class-level dict shared by all tunes', F, "  FLATS_ORDER = 'BEADGCF'\n", "  FLATS_ORDER = 'BEADGCF'\n  _bar_accidentals = {}\n", rule='STATE/per-tune',
+           also=[(F, "    self._bar_accidentals = {}\n", "")]),
+    Mutant('class-level default None with the per-tune dict still made in __init__ (harmless)', F, "  FLATS_ORDER = 'BEADGCF'\n", "  FLATS_ORDER = 'BEADGCF'\n  _bar_accidentals = None\n", expect='silent'),
     Mutant('row deleted from the proto key table', F, "      'ab': music_pb2.NoteSequence.KeySignature.A_FLAT,\n", '', rule='TAB/proto-key-covers'),
     Mutant('F# mapped to G', F, "      'f#': music_pb2.NoteSequence.KeySignature.F_SHARP,", "      'f#': music_pb2.NoteSequence.KeySignature.G,", rule='TAB/proto-key-value'),
     Mutant('two tonics swapped in the 3-sharp row', F, "      3: ['A', 'F#m', 'EMix', 'BDor', 'C#Phr', 'DLyd', 'G#Loc'],", "      3: ['A', 'F#m', 'BMix', 'EDor', 'C#Phr', 'DLyd', 'G#Loc'],", rule='TAB/sig-to-keys'),
